@@ -32,7 +32,18 @@ def prepare(sid):
     shutil.copytree("/repo/hdc", d / "hdc", ignore=shutil.ignore_patterns("__pycache__"))
     p = subprocess.run(["patch", "-p1", "-s", "-d", str(d), "-i", str(SEEDED / sid / "patch.diff")], capture_output=True, text=True)
     if p.returncode != 0:
-        raise SystemExit(f"{sid}: patch does not apply to the current tree: {p.stdout[-300:]} {p.stderr[-300:]}")
+        # the working tree has moved on (later fix: commits): fall back to the commit the change was written against
+        meta = json.loads((SEEDED / sid / "meta.json").read_text())
+        base = meta.get("base_commit")
+        if not base:
+            raise SystemExit(f"{sid}: patch does not apply to the current tree and no base_commit is recorded: {p.stdout[-300:]}")
+        shutil.rmtree(d / "hdc")
+        tar = subprocess.run(["git", "-C", "/repo", "archive", base, "hdc"], capture_output=True, check=True).stdout
+        subprocess.run(["tar", "-x", "-C", str(d)], input=tar, check=True)
+        p = subprocess.run(["patch", "-p1", "-s", "-d", str(d), "-i", str(SEEDED / sid / "patch.diff")], capture_output=True, text=True)
+        if p.returncode != 0:
+            raise SystemExit(f"{sid}: patch does not apply to its base commit {base}: {p.stdout[-300:]}")
+        (d / "BASED_ON").write_text(base)
     return d
 
 
@@ -40,6 +51,8 @@ def run_one(sid, tier, tests, demo):
     meta = json.loads((SEEDED / sid / "meta.json").read_text())
     d = prepare(sid)
     out = {"id": sid, "property": meta["property"]}
+    if (d / "BASED_ON").exists():
+        out["tree"] = "base commit " + (d / "BASED_ON").read_text()
     try:
         env0 = dict(os.environ, PYTHONDONTWRITEBYTECODE="1")
         if demo:
